@@ -37,8 +37,9 @@ One(p) == [Zero EXCEPT ![p] = 1]
 N(p, n) == [Zero EXCEPT ![p] = n]
 
 (* ------------------------------------------------------------------ site level *)
-(* offpar / addrpar: 0 even, 1 odd.  sibling: the file has another RELR reservation, so the writer
-   owns a non-empty RELR table (TableWriter::new filters an empty part out) *)
+(* offpar / addrpar: 0 even, 1 odd.  sibling: the group of files the writer processes together has
+   another RELR reservation, so the writer owns a non-empty RELR table (TableWriter::new filters an
+   empty part out) *)
 SiteAlloc(c, offpar) ==
     LET pr == WProcess(c) IN
     IF pr.err # "" THEN Zero
